@@ -61,7 +61,7 @@ POOL = [
     ["st", "Empty"], ["st", "Blank"], ["st", "DefaultValue"],
     A(), A(I(1)), A(I(1), I(2)), A(I(2), I(1)), A(F(1.0)), A(["n"]), A(St("a")), A(["b", True]), A(A(I(1))), A(A(I(1), I(2)), A(I(3))), A(O(("a", I(1)))),
     O(), O(("a", I(1))), O(("a", F(1.0))), O(("a", I(2))), O(("b", I(1))), O(("a", I(1)), ("b", I(2))), O(("b", I(2)), ("a", I(1))),
-    O(("a", I(1)), ("b", I(3))), O(("a", ["n"])), SIX, SIX2, SIX3,
+    O(("a", I(1)), ("b", I(3))), O(("a", ["n"])), O(("a", ["n"]), ("b", I(1))), O(("b", I(1)), ("c", I(2))), O(("b", I(1)), ("c", ["n"])), SIX, SIX2, SIX3,
     O(("a", O(("b", I(1)), ("c", I(2)))), ("z", A(I(1)))), O(("z", A(I(1))), ("a", O(("c", I(2)), ("b", I(1))))),
     O(("a", A(I(1), I(2)))),
     ["st", "Truthy"],   # outside the property's quantifier (never produced by templates): correspondence only
